@@ -237,8 +237,10 @@ theorem define_parts {env : List OType} {d : Def} {t : OType} (h : define env d 
     ∃ attrs, defineAttrs (parentOf env d) (d.decls (parentOf env d)) = .ok attrs ∧
       checkEquality attrs (parentOf env d) (d.equality.toList?.getD []) = .ok () ∧
       checkSerialization attrs (parentOf env d) false [] (d.serialization.getD []) = .ok () ∧
+      defineFuncs (parentOf env d) d.funcs = .ok () ∧
       t = { id := env.length, attrs := attrs, equality := d.equality.toList?,
-            includeType := d.includeType.getD true, serialization := d.serialization, params := d.params } ::
+            includeType := d.includeType.getD true, serialization := d.serialization, params := d.params,
+            funcs := d.funcs } ::
           parentOf env d := by
   unfold define at h
   generalize parentOf env d = parent at h ⊢
@@ -254,6 +256,10 @@ theorem define_parts {env : List OType} {d : Def} {t : OType} (h : define env d 
     | error c => simp [ha] at h
     | ok attrs =>
       simp only [ha] at h
+      cases hfn : defineFuncs parent d.funcs with
+      | error c => simp [hfn] at h
+      | ok u0 =>
+      simp only [hfn] at h
       cases he : checkEquality attrs parent (d.equality.toList?.getD []) with
       | error c => simp [he] at h
       | ok u =>
@@ -263,7 +269,7 @@ theorem define_parts {env : List OType} {d : Def} {t : OType} (h : define env d 
         | ok u' =>
           simp only [hs] at h
           cases h
-          exact ⟨attrs, rfl, he, hs, rfl⟩
+          exact ⟨attrs, rfl, he, hs, rfl, rfl⟩
 
 theorem typeDef_noBoth {as : List Attr} (hnd : (as.map (·.name)).Nodup) (parent : Option Nat) (l : Level)
     (hl : l.attrs = as) :
@@ -303,11 +309,12 @@ theorem define_typeDef {env : List OType} {d : Def} {l : Level} {p : OType} (hnd
     (hcn : (d.constants.map (·.1)).Nodup) (h : define env d = .ok (l :: p))
     (hu : ∀ a ∈ l.attrs, a.undefConstant = false) :
     define env (typeDef d.parent l) = .ok ({ l with attrs := reorder l.attrs } :: p) := by
-  obtain ⟨hpar, hboth, attrs, hattrs, heq, hser, ht⟩ := define_parts h
+  obtain ⟨hpar, hboth, attrs, hattrs, heq, hser, hfn, ht⟩ := define_parts h
   have hp : parentOf env (typeDef d.parent l) = parentOf env d := rfl
-  have hl : l = Level.mk env.length attrs d.equality.toList? (d.includeType.getD true) d.serialization d.params :=
-    (List.cons.inj ht).1
+  have hl : l = Level.mk env.length attrs d.equality.toList? (d.includeType.getD true) d.serialization d.params
+      d.funcs := (List.cons.inj ht).1
   have hpars : (typeDef d.parent l).params = d.params := by rw [hl]; rfl
+  have hfns : (typeDef d.parent l).funcs = d.funcs := by rw [hl]; rfl
   have hpp : p = parentOf env d := (List.cons.inj ht).2
   have hla : l.attrs = attrs := by rw [hl]
   have hnames : (attrs.map (·.name)).Nodup := by
@@ -321,7 +328,7 @@ theorem define_typeDef {env : List OType} {d : Def} {l : Level} {p : OType} (hnd
     rw [hl]; simp only [typeDef]
     cases d.includeType.getD true <;> rfl
   unfold define
-  simp only [hp, hpars, hpar, typeDef_noBoth hnames d.parent l hla, Bool.false_eq_true, if_false,
+  simp only [hp, hpars, hfns, hfn, hpar, typeDef_noBoth hnames d.parent l hla, Bool.false_eq_true, if_false,
     typeDef_decls hattrs (by rw [← hla]; exact hu) d.parent l hla, heqs, hsers, hinc]
   rw [checkEquality_congr hlook, heq]
   simp only
